@@ -48,11 +48,12 @@ type startCase struct {
 	viaEnv       bool
 	redisSecret  string // how a Redis password is supplied (C18): none | flag | env | uri
 	disco        string // shape of the discovery document: ok | noacr | emptyacr | nolocale | noalg
+	provider     string // openid | idporten | azure (provider flavours: other env names and - for idporten - defaults; the same completeness rules)
 }
 
 func baseCase() startCase {
 	return startCase{key: "ok", ingress: "https", clientID: true, jwk: "valid", wellKnown: "ok", mode: "standalone", redis: "none", cookieName: true, serverURL: "ok", domain: true,
-		defaultURL: "ok", secure: true, sameSite: "Lax", upstream: "none", shutdown: "ok", alg: "RS256", acr: "none", locale: "none", redisSecret: "none", disco: "ok"}
+		defaultURL: "ok", secure: true, sameSite: "Lax", upstream: "none", shutdown: "ok", alg: "RS256", acr: "none", locale: "none", redisSecret: "none", disco: "ok", provider: "openid"}
 }
 
 var c20Dims = []struct {
@@ -67,6 +68,7 @@ var c20Dims = []struct {
 	{"upstream", []string{"both", "iponly", "portonly", "port70000", "portneg"}}, {"shutdown", []string{"equal", "less"}}, {"alg", []string{"BOGUS", "ES256"}},
 	{"acr", []string{"supported", "legacy", "unsupported"}}, {"locale", []string{"supported", "unsupported"}}, {"redisSecret", []string{"flag", "env", "uri", "uri-enc", "uri-dup", "flag-special", "env-special"}},
 	{"disco", []string{"noacr", "emptyacr", "nolocale", "noalg"}},
+	{"provider", []string{"idporten", "azure"}},
 }
 
 func (sc *startCase) set(name, v string) {
@@ -114,6 +116,8 @@ func (sc *startCase) set(name, v string) {
 		sc.redisSecret = v
 	case "disco":
 		sc.disco = v
+	case "provider":
+		sc.provider = v
 	}
 }
 
@@ -406,6 +410,9 @@ func runC20(c *ctx) {
 				settings["shutdown-graceful-period"], settings["shutdown-wait-before-period"] = "2s", "5s"
 			}
 			settings["openid.id-token-signing-alg"] = sc.alg
+			if sc.provider != "" && sc.provider != "openid" {
+				settings["openid.provider"] = sc.provider
+			}
 			switch sc.acr {
 			case "supported":
 				settings["openid.acr-values"] = "idporten-loa-high"
@@ -513,10 +520,20 @@ func runC20(c *ctx) {
 					}
 				}
 			}
+			// the ID-porten flavour configures a default level (idporten-loa-high) and locale (nb) when none is given: the discovery document must then support THOSE
+			effAcr, effLocale := sc.acr, sc.locale
+			if sc.provider == "idporten" {
+				if effAcr == "none" {
+					effAcr = "supported"
+				}
+				if effLocale == "none" {
+					effLocale = "supported"
+				}
+			}
 			c.count("start:" + fmtVal(listening))
 			c.emit("start20", "key", sc.key, "ingress", sc.ingress, "clientid", sc.clientID, "jwk", sc.jwk, "secret", sc.secret, "wellknown", sc.wellKnown, "mode", sc.mode, "redis", sc.redis,
 				"cookiename", sc.cookieName, "serverurl", sc.serverURL, "domain", sc.domain, "defaulturl", sc.defaultURL, "secure", sc.secure, "samesite", sc.sameSite, "upstream", sc.upstream,
-				"shutdown", sc.shutdown, "alg", sc.alg, "acr", sc.acr, "locale", sc.locale, "viaenv", sc.viaEnv, "redissecret", sc.redisSecret, "disco", sc.disco,
+				"shutdown", sc.shutdown, "alg", sc.alg, "acr", effAcr, "locale", effLocale, "provider", sc.provider, "viaenv", sc.viaEnv, "redissecret", sc.redisSecret, "disco", sc.disco,
 				"listening", listening, "exitcode", exitCode, "leak", hx(leak), "loglen", len(logs))
 		}()
 	}
